@@ -20,6 +20,42 @@ pub fn segseg_case(cx: &mut Ctx, n: u64, case: &Value) {
     if !cx.wants("C11") {
         return;
     }
+    // once per replay: 300 000 seeded random pairs with DECIMAL coordinates in which one segment ends a few units in the last place
+    // beyond the other (a proper crossing right next to an end point).  No expected value is needed for what the property promises
+    // there: a point flagged proper lies in BOTH bounding boxes, and Some / None agrees with intersects in both operand orders
+    static NEAR_END_DONE: std::sync::atomic::AtomicBool = std::sync::atomic::AtomicBool::new(false);
+    if !NEAR_END_DONE.swap(true, std::sync::atomic::Ordering::SeqCst) {
+        use rand::{rngs::StdRng, Rng, SeedableRng};
+        let mut rng = StdRng::seed_from_u64(cx.seed ^ 0xC11);
+        let ulps = |v: f64, k: i64| f64::from_bits((v.to_bits() as i64 + if v >= 0.0 { k } else { -k }) as u64);
+        let mut bad = 0usize;
+        for _ in 0..300_000 {
+            let r = |rng: &mut StdRng| (rng.gen_range(-2000..2000) as f64) / 100.0 + rng.gen_range(0..1000) as f64 * 1e-7;
+            let q = Line::new(Coord { x: r(&mut rng), y: r(&mut rng) }, Coord { x: r(&mut rng), y: r(&mut rng) });
+            let t = rng.gen_range(0.1..0.9);
+            let m = Coord { x: q.start.x + t * (q.end.x - q.start.x), y: q.start.y + t * (q.end.y - q.start.y) };
+            let far = Coord { x: r(&mut rng), y: r(&mut rng) };
+            let (kx, ky) = (rng.gen_range(0..3i64), rng.gen_range(0..3i64));
+            let end = Coord { x: ulps(m.x, if m.x >= far.x { kx } else { -kx }), y: ulps(m.y, if m.y >= far.y { ky } else { -ky }) };
+            let p = if rng.gen_bool(0.5) { Line::new(far, end) } else { Line::new(end, far) };
+            for (l1, l2) in [(p, q), (q, p)] {
+                let got = guard(|| (line_intersection(l1, l2), l1.intersects(&l2)));
+                let ok = match &got {
+                    Ok((None, ix)) => !*ix,
+                    Ok((Some(LineIntersection::SinglePoint { intersection: i, is_proper }), ix)) => {
+                        let inbox = |l: &Line<f64>| i.x >= l.start.x.min(l.end.x) && i.x <= l.start.x.max(l.end.x) && i.y >= l.start.y.min(l.end.y) && i.y <= l.start.y.max(l.end.y);
+                        *ix && (!*is_proper || (inbox(&l1) && inbox(&l2)))
+                    }
+                    Ok((Some(_), ix)) => *ix,
+                    Err(_) => false,
+                };
+                if ok { cx.ok("proper_point_in_both_boxes_random"); } else if bad < 20 {
+                    bad += 1;
+                    cx.bad("C11", "proper_point_in_both_boxes_random", case, json!({"what": "random decimal pair, one segment ending a few ulps beyond the other", "p": [l1.start.x, l1.start.y, l1.end.x, l1.end.y], "q": [l2.start.x, l2.start.y, l2.end.x, l2.end.y], "got": format!("{got:?}")}));
+                }
+            }
+        }
+    }
     let (a, b, c, d) = (coord(&case["a"]), coord(&case["b"]), coord(&case["c"]), coord(&case["d"]));
     let rel = &case["rel"];
     let kind = rel["kind"].as_str().unwrap();
